@@ -70,6 +70,10 @@ func denseEnum(L int, emit func(toks []string)) {
 
 // ---------------------------------------------------------------- random trees
 
+// names that can only be written in brackets: letters outside ASCII (their UTF-8 bytes include 0x85 and 0xA0, which
+// are white space in Latin-1 and nothing of the kind here)
+var boxedOnlyNames = []string{"prixà", "Åm", "вход", "Šířka", "größe"}
+
 var randNames = []string{"x", "y", "z", "n", "val", "count", "ab", "t1", "k2", "size", "Rate", "X"}
 var randFuncs = []string{"abs", "sin", "asin", "cos", "acos", "tan", "atan", "sqrt", "floor", "ceil", "round", "exp", "exp2", "log", "log10", "log2"}
 var randLits = []string{
@@ -112,6 +116,10 @@ func (g *treeGen) leaf() *node {
 	case 0:
 		return &node{k: nIdx, idx: r.Intn(g.nvars), boxed: true}
 	case 1:
+		if r.Intn(6) == 0 {
+			// keys come from dissect tokens, -k pairs and JSON members: any text may stand between the brackets
+			return &node{k: nKey, key: boxedOnlyNames[r.Intn(len(boxedOnlyNames))], boxed: true}
+		}
 		return &node{k: nKey, key: randNames[r.Intn(g.nvars*2)%len(randNames)], boxed: true}
 	default:
 		return &node{k: nKey, key: randNames[r.Intn(g.nvars*2)%len(randNames)]}
